@@ -11,6 +11,8 @@
        BalanceErr    : bal.Balance failed (retry budget exhausted, no backend): loop exits, trans unchanged
    and afterwards
        Finish        : FinishReq: DecConnNum(trans) if set.
+   WebSocket and TLS-stream tunnels (findBackend / serve in bfe_websocket and bfe_stream server_conn.go) use the
+   Tunnel* operations below on the same per-request record.
    `held` is a ghost field: the backend on which this request has an outstanding IncConnNum. *)
 From Coq Require Import List ZArith Bool.
 Import ListNotations.
@@ -22,7 +24,12 @@ Inductive op :=
 | ForwardFinish
 | ForwardGoOn
 | RoundTrip (r : Z)
-| Finish.
+| Finish
+(* tunnels: bfe_websocket/server_conn.go and bfe_stream/server_conn.go (findBackend + serve) *)
+| TunnelPick (b : nat)     (* balanceHandler returned b: b.IncConnNum(), then net.DialTimeout *)
+| TunnelDialFail           (* the dial failed: b.DecConnNum(), continue (at most connectRetryMax picks) *)
+| TunnelEnd                (* serve returns (handshake failed, rejected, or the tunnel finished): deferred back.DecConnNum() *)
+| TunnelGiveUp.            (* findBackend found no backend: errRetryTooMany, nothing held *)
 
 Inductive phase := PLoop | PChosen | PSent | PDone | PFinished.
 
@@ -53,8 +60,23 @@ Definition step (s : state) (rid : nat) (o : op) : option state :=
   | PSent, RoundTrip x =>
     set (counts s) (mkR (if x =? 1 then PLoop else PDone) (trans r) (held r))
   | PDone, Finish => set (dec_opt (counts s) (trans r)) (mkR PFinished (trans r) None)
+  | PLoop, TunnelPick b =>
+    match trans r with
+    | None => set (inc (counts s) b) (mkR PSent (Some b) (Some b))
+    | Some _ => None
+    end
+  | PSent, TunnelDialFail => set (dec_opt (counts s) (trans r)) (mkR PLoop None None)
+  | PSent, TunnelEnd => set (dec_opt (counts s) (trans r)) (mkR PFinished (trans r) None)
+  | PLoop, TunnelGiveUp =>
+    match trans r with
+    | None => set (counts s) (mkR PFinished None None)
+    | Some _ => None
+    end
   | _, _ => None
   end.
+
+(* a new request object takes the place of a finished one (harness bookkeeping: request slots are reused) *)
+Definition reset (s : state) (rid : nat) : state := mkS (counts s) (upd (reqs s) rid r_init).
 
 Fixpoint run_ops (s : state) (t : list (nat * op)) : option state :=
   match t with
